@@ -50,6 +50,11 @@ def reach_cases(tier):
             cs.append(fcase(n_, n_, pat, tune=tn, symcols=1 << (n_ - 1)))
             cs.append(fcase(n_, n_, pat, tune=tn, symcols=3 << (n_ - 2)))
             if tier != "quick": cs.append(fcase(n_, n_, pat, tune=tn, symcols=1 << (n_ // 2)))
+    # the same with the rows stored in scrambled order: the pivots of the concrete part lie far from the diagonal and the row lists of the supernodes are not consecutive integers
+    # (index expressions such as lsub[k - 1] vs lsub[k] - 1 differ only then)
+    for n_, pat in ([(7, C.dense(7, 7)), (10, C.dense(10, 10)), (10, C.band(10, 4, 1)), (6, C.band(6, 2, 2))] if tier == "quick" else [(5, C.dense(5, 5)), (7, C.dense(7, 7)), (9, C.dense(9, 9)), (10, C.dense(10, 10)), (10, C.band(10, 4, 1)), (6, C.band(6, 2, 2)), (9, C.arrow(9))]):
+        for tn in ("t4_1_8_2d", "t2_4_4", "t313", "tn1n", "t133") if tier == "quick" else tun + ("t133",):
+            cs.append(fcase(n_, n_, pat, tune=tn, symcols=1 << (n_ - 1), flags=8)); cs.append(fcase(n_, n_, pat, tune=tn, symcols=3 << (n_ - 2), flags=8))
     return cs + etree_reach_cases(tier)
 
 
